@@ -58,6 +58,24 @@ Definition app_consults (now : Z) (w : sendw) (f : full) : Prop :=
 Definition pacer_sane (now : Z) (w : sendw) : Prop :=
   Forall (fun it => match ai_pacer it with Some p => now < p | None => True end) (sw_app w).
 
+(* ---- the ack_at source: handle_timer does nothing for it; the ACK leaves with the next datagrams_to_send, provided
+   the packet of that space can be started and has room for the frame ---- *)
+(* ---- the ack_at source: handle_timer does nothing for it; the ACK leaves with the next datagrams_to_send, provided
+   the packet of that space can be started and has room for the frame ---- *)
+Definition hs_writes (h : hsw) : Prop := hw_keys h = true /\ hw_stop h <> 1 /\ hw_room h = true.
+
+Definition ack_can_send (i : nat) (w : sendw) (f : full) : Prop :=
+  ordinary_send (f_c f) = true /\
+  match i with
+  | O => f_confirmed f = false /\ hs_writes (sw_h0 w)
+  | S O => f_confirmed f = false /\ fst (whs 0 (sw_h0 w) f) = false /\ hs_writes (sw_h1 w)
+  | _ => reaches_app w f /\ f_complete f = true /\
+         exists it rest, sw_app w = it :: rest /\ ai_stop it = false /\ ai_room it = true
+  end.
+
+(* the state in which the writers of datagrams_to_send run *)
+Definition send_state (reset : bool) (f : full) : full := if reset then set_pacing None f else f.
+
 (* what firing the timer at the returned time v does to the source s that armed it *)
 Definition progress_of (reset : bool) (ptod pto3 : Z) (te : teff) (w : sendw) (f : full) (v : Z) (s : src) : Prop :=
   match s with
@@ -71,7 +89,9 @@ Definition progress_of (reset : bool) (ptod pto3 : Z) (te : teff) (w : sendw) (f
       pacer_sane v w -> (reset = true \/ app_consults v w (fire1 reset ptod v te f)) ->
       is_end (c_state (f_c (fire2 reset ptod v pto3 te w f))) = true \/
       match f_pacing (fire2 reset ptod v pto3 te w f) with None => True | Some p => v < p end
-  | SrcAck _ => True
+  | SrcAck i =>
+      (i <= 2)%nat -> ack_can_send i w (send_state reset (fire1 reset ptod v te f)) ->
+      ts_ack_at (sp_at (fire2 reset ptod v pto3 te w f) i) = None
   end.
 
 (* ================= the stale _pacing_at: timer_progress fails for the pacing source (reset = false) ===========
